@@ -98,10 +98,62 @@ fn op(gc_heavy: bool) -> impl Strategy<Value = Op> {
     ]
 }
 
+/// operations around the `intern_ref` chain (rows / rows_b / row_ref / lookups / collections)
+fn row_op() -> impl Strategy<Value = Op> {
+    use CallSpec::*;
+    prop_oneof![
+        3 => (key(), -1..=1i32).prop_map(|(k, v)| Op::Set(k, v)),
+        3 => key().prop_map(Op::TrackedInsert),
+        2 => (-1..=1i32).prop_map(Op::SetCfg),
+        3 => name().prop_map(|n| Op::Call(RowRef(n))),
+        3 => name().prop_map(|n| Op::Call(RowRefB(n))),
+        1 => name().prop_map(|n| Op::Call(RowScore(n))),
+        1 => name().prop_map(|n| Op::Call(RowScoreB(n))),
+        1 => (name(), any::<bool>()).prop_map(|(n, b)| Op::Call(RowParamVia(n, b))),
+        1 => Just(Op::Call(Rows)),
+        4 => any::<u16>().prop_map(Op::Lookup),
+        3 => Just(Op::Gc),
+    ]
+}
+
+pub fn mixed_op(gc_heavy: bool, row_weight: u32) -> impl Strategy<Value = Op> {
+    prop_oneof![10 => op(gc_heavy), row_weight => row_op()]
+}
+
+/// A history built around one row that both producers (`rows`, `rows_b`) can yield: the key is
+/// written and tracked, both `row_ref` variants are called (either order, possibly in one epoch),
+/// then collections and lookups; arbitrary operations are interleaved. This reaches by
+/// construction the "equal value interned again at another address" case of C03.
+pub fn row_scenario(max_extra: usize) -> impl Strategy<Value = History> {
+    use CallSpec::*;
+    (1..=3usize, 0..2u8, -1..=1i32, prop::option::of(-1..=1i32), any::<bool>(), prop::collection::vec((mixed_op(true, 10), any::<u16>()), 0..=max_extra), 1..=3usize).prop_map(
+        |(cap, k, v, cfg, b_first, extra, lookups)| {
+            let mut ops = vec![Op::Set(k, v), Op::TrackedInsert(k)];
+            if let Some(c) = cfg {
+                ops.push(Op::SetCfg(c));
+            }
+            let (x, y) = if b_first { (RowRefB(k), RowRef(k)) } else { (RowRef(k), RowRefB(k)) };
+            ops.push(Op::Call(x));
+            ops.push(Op::Call(y));
+            ops.push(Op::Gc);
+            for i in 0..lookups {
+                ops.push(Op::Lookup(i as u16));
+            }
+            // interleave the extra operations at generated positions (after the two writes)
+            for (op, at) in extra {
+                let pos = 2 + vcore::pick_index(at, ops.len() - 1);
+                ops.insert(pos, op);
+            }
+            (cap, ops)
+        },
+    )
+}
+
 type History = (usize, Vec<Op>);
 
 fn history(gc_heavy: bool, max_len: usize) -> impl Strategy<Value = History> {
-    (1..=3usize, prop::collection::vec(op(gc_heavy), 1..=max_len))
+    let plain = (1..=3usize, prop::collection::vec(mixed_op(gc_heavy, if gc_heavy { 3 } else { 1 }), 1..=max_len));
+    prop_oneof![if gc_heavy { 9 } else { 30 } => plain, 1 => row_scenario(12)]
 }
 
 pub fn history_json(h: &History) -> Value {
@@ -146,6 +198,9 @@ fn judge(property: &str, report: &Report, h: &History, out: &Outcome) -> Result<
     report.label_n("ops-skipped(outside-contract-or-not-live)", out.skipped_ops as u64);
     report.label_n("body-executions", out.body_executions);
     report.label_n("lookups-checked", out.lookups_checked);
+    for _ in 0..out.excluded_second_owner {
+        report.excluded("C03 intern-ref-pointer-outlives-owner (the second owner of equal rows never interns)");
+    }
     if nontrivial {
         report.sample("non-trivial", 3, || history_json(h));
     } else {
@@ -167,10 +222,23 @@ fn options(report: &Report, property: &str) -> Options {
     // behind them (the exclusion is counted in the evidence).
     let listed = |sig: &str| report.known_findings().iter().any(|k| k.signature == sig);
     let _ = property;
+    let _ = listed;
     Options {
-        exclude_absent_singleton_read: !report.strict && std::env::var("VERIF_PICO_EXCLUDE_ABSENT").is_ok(),
-        exclude_equal_value_write: !report.strict && listed("spurious-reexecution:equal-value-write") && std::env::var("VERIF_PICO_EXCLUDE_EQ").is_ok(),
+        // C01 `stale-result` (absent source) and C02 `equal-value-write` were repaired in /repo; the
+        // switches stay for the case that such a finding is recorded as open again
+        exclude_absent_singleton_read: !report.strict && open_finding("C01", "stale-result:absent-source-read"),
+        exclude_equal_value_write: !report.strict && open_finding("C02", "spurious-reexecution:equal-value-write"),
+        exclude_second_intern_owner: !report.strict && open_finding("C03", "intern-ref-pointer-outlives-owner"),
     }
+}
+
+/// Is (property, signature) listed as an open finding? (The interpreter is shared by C01-C03, so
+/// an open C03 finding that makes pico read freed memory is excluded from all three searches.)
+fn open_finding(property: &str, signature: &str) -> bool {
+    let path = vcore::verif_root().join("known_findings.json");
+    let Ok(text) = std::fs::read_to_string(path) else { return false };
+    let Ok(v) = serde_json::from_str::<Value>(&text) else { return false };
+    v["findings"].as_array().map(|a| a.iter().any(|f| f["status"] == "open" && f["property"] == property && f["signature"] == signature)).unwrap_or(false)
 }
 
 fn rule(property: &str) -> &'static str {
@@ -237,15 +305,19 @@ fn run(args: &Args) {
 
     report.run_regressions(|input| {
         let Some(h) = history_from_json(input) else { return Err(Fail::new("harness-internal:bad-regression-input", "not a history")) };
-        let out = run_one(&h);
+        // checked-in inputs run without any exclusion switch
+        let out = match vcore::catch_panic(|| interp::run_history(h.0, &h.1, &Options::default())) {
+            Ok(o) => o,
+            Err(p) => vcore::inconclusive(&format!("interpreter panicked: {p}")),
+        };
         judge(property, &report, &h, &out)
     });
 
     let gc_heavy = property == "C03";
     let cases = match property {
-        "C01" => args.tier.pick(6000, 400_000),
-        "C02" => args.tier.pick(6000, 400_000),
-        _ => args.tier.pick(6000, 300_000),
+        "C01" => args.tier.pick(60_000, 1_500_000),
+        "C02" => args.tier.pick(60_000, 1_500_000),
+        _ => args.tier.pick(60_000, 1_200_000),
     };
     let workers = vcore::num_workers();
     let found = vcore::run_prop_parallel(
